@@ -145,6 +145,11 @@ func runHS(c HSCase) pbt.Verdict {
 			ach <- accepted{err: err}
 			return
 		}
+		// Closing with linger 0 resets the connection: no TIME_WAIT entry is left behind on
+		// either side, so long runs do not exhaust the ephemeral ports.
+		if tc, ok := nc.(*net.TCPConn); ok {
+			tc.SetLinger(0)
+		}
 		pc, err := acceptor.Accept(nc)
 		if err != nil {
 			nc.Close()
@@ -156,6 +161,7 @@ func runHS(c HSCase) pbt.Verdict {
 	}()
 	res, ierr := opener.Initialize(hsPeerID(2), false, l.Addr().String(), openerInfo, rb, "ns")
 	a := <-ach
+	// Deferred calls run last-in first-out: the acceptor's side (linger 0) closes first.
 	if res != nil && res.Conn != nil {
 		defer res.Conn.Close()
 	}
